@@ -623,13 +623,13 @@ Qed.
 
 (* -- lags / leads -- *)
 Definition idx_ok (o : option pidx) : bool :=
-  match o with None => true | Some (IInt z) => in_int64 z | Some (IStr _) => false end.
+  match o with None => true | Some (IInt _) => true | Some (IStr _) => false end.
 Definition idx_exact (o : option pidx) : bool :=
   match o with Some (IInt z) => Z.abs z <=? two53 | _ => true end.
 Definition idx_col_ok (os : list (option pidx)) : bool :=
   forallb idx_ok os && (negb (existsb is_None os) || forallb idx_exact os).
-(* the guard the round trip needs: every lag / lead is None or an int64, and a column that holds a None holds only
-   integers that float64 represents exactly *)
+(* the guard the round trip needs: every lag / lead is None or an int (of any size), and a column that holds a None holds
+   only integers that float64 represents exactly *)
 Definition sym_wf (ss : list symbol) : bool := idx_col_ok (map slags ss) && idx_col_ok (map sleads ss).
 
 Definition enc_idx (o : option pidx) : cell := match o with Some (IInt z) => CInt z | _ => CNone end.
@@ -641,19 +641,18 @@ Proof.
   destruct o as [[z|s]|]; cbn [idx_ok] in H1; try discriminate; cbn [cell_of_oidx enc_idx]; rewrite (IH H2); reflexivity.
 Qed.
 
-Lemma enc_no_big os : forallb idx_ok os = true -> existsb out_int64 (map enc_idx os) = false.
+Lemma enc_no_big os : forallb idx_exact os = true -> existsb out_int64 (map enc_idx os) = false.
 Proof.
   induction os as [|o r IH]; [reflexivity|]. cbn [forallb map existsb]. intros H. apply andb_true_iff in H as [H1 H2].
-  rewrite (IH H2), orb_false_r. destruct o as [[z|s]|]; cbn [idx_ok] in H1; try discriminate; cbn [enc_idx out_int64]; [|reflexivity].
-  rewrite H1. reflexivity.
+  rewrite (IH H2), orb_false_r. destruct o as [[z|s]|]; cbn [enc_idx out_int64]; try reflexivity.
+  cbn [idx_exact] in H1. apply negb_false_iff. unfold in_int64, int64_min, int64_max. apply Z.leb_le in H1. unfold two53 in H1.
+  apply andb_true_iff. split; apply Z.leb_le; lia.
 Qed.
 
 Lemma conv_enc os : forallb idx_ok os = true -> map convert_to_int_or_none (map enc_idx os) = map TOk os.
 Proof.
   induction os as [|o r IH]; [reflexivity|]. cbn [forallb map]. intros H. apply andb_true_iff in H as [H1 H2].
-  rewrite (IH H2). destruct o as [[z|s]|]; cbn [idx_ok] in H1; try discriminate; cbn [enc_idx convert_to_int_or_none].
-  - rewrite H1. reflexivity.
-  - reflexivity.
+  rewrite (IH H2). destruct o as [[z|s]|]; cbn [idx_ok] in H1; try discriminate; cbn [enc_idx convert_to_int_or_none]; reflexivity.
 Qed.
 
 Lemma conv_enc_float os : forallb idx_ok os = true -> forallb idx_exact os = true ->
@@ -683,7 +682,7 @@ Qed.
 Lemma enc_num_or_none os : forallb idx_ok os = true -> forallb is_num_or_none (map enc_idx os) = true.
 Proof.
   induction os as [|o r IH]; [reflexivity|]. cbn [forallb map]. intros H. apply andb_true_iff in H as [H1 H2].
-  rewrite (IH H2). destruct o as [[z|s]|]; cbn [idx_ok] in H1; try discriminate; cbn [enc_idx is_num_or_none]; rewrite ?H1; reflexivity.
+  rewrite (IH H2). destruct o as [[z|s]|]; cbn [idx_ok] in H1; try discriminate; cbn [enc_idx is_num_or_none]; reflexivity.
 Qed.
 
 Lemma idx_column name o r : idx_col_ok (o :: r) = true ->
@@ -704,11 +703,12 @@ Proof.
   assert (Eo : forallb is_str_or_none l = false).
   { destruct (forallb is_str_or_none l) eqn:E; [|reflexivity]. subst l. rewrite (enc_str_or_none _ E) in E1. discriminate. }
   assert (En : forallb is_num_or_none l = true) by (subst l; apply enc_num_or_none; assumption).
-  rewrite (C5 eq_refl eq_refl Eb Es Eo En (enc_no_big _ Hok)). eexists; eexists; split; [reflexivity|split; [reflexivity|]].
-  subst l. apply conv_enc_float; [assumption|].
-  destruct (existsb is_None (o :: r)) eqn:EN.
-  - cbn [negb orb] in Hex. assumption.
-  - rewrite (enc_no_none_all_int _ Hok EN) in E2. discriminate.
+  assert (Hx : forallb idx_exact (o :: r) = true).
+  { destruct (existsb is_None (o :: r)) eqn:EN.
+    - cbn [negb orb] in Hex. assumption.
+    - subst l. rewrite (enc_no_none_all_int _ Hok EN) in E2. discriminate. }
+  rewrite (C5 eq_refl eq_refl Eb Es Eo En (enc_no_big _ Hx)). eexists; eexists; split; [reflexivity|split; [reflexivity|]].
+  subst l. apply conv_enc_float; assumption.
 Qed.
 
 (* -- rows -- *)
@@ -1144,7 +1144,7 @@ Proof.
     repeat match type of T with context [match ?x with _ => _ end] => destruct x end; inversion T; reflexivity.
 Qed.
 
-Lemma convert_to_int_errors c e : convert_to_int_or_none c = TErr e -> e = TypeError \/ e = OverflowError.
+Lemma convert_to_int_errors c e : convert_to_int_or_none c = TErr e -> e = TypeError \/ e = OverflowError \/ e = ValueError.
 Proof.
   destruct c as [|[]| | | | | | |]; cbn [convert_to_int_or_none Z_of_f64]; intros C;
     repeat match type of C with context [if ?x then _ else _] => destruct x end; inversion C; auto.
@@ -1166,7 +1166,7 @@ Proof.
   assert (T : forall c e', type_of_cell c = TErr e' -> sym_exn e' = true)
     by (intros c e' H; rewrite (type_of_cell_errors c e' H); reflexivity).
   assert (I : forall c e', convert_to_int_or_none c = TErr e' -> sym_exn e' = true)
-    by (intros c e' H; destruct (convert_to_int_errors c e' H) as [-> | ->]; reflexivity).
+    by (intros c e' H; destruct (convert_to_int_errors c e' H) as [-> | [-> | ->]]; reflexivity).
   assert (U : forall (c : cell) e', (TOk tt : tres unit) = TErr e' -> sym_exn e' = true) by (intros c e' H; discriminate).
   destruct (check_field cols "type" type_of_cell) as [[]|e1|] eqn:F1; cbn [tbind]; try discriminate;
     [|intros H; inversion H; subst; apply (check_field_errors _ _ _ _ T F1)].
@@ -1322,8 +1322,7 @@ Lemma idx_small_col os : forallb idx_small os = true -> idx_col_ok os = true.
 Proof.
   intros H. unfold idx_col_ok. apply andb_true_iff. split.
   - apply forallb_forall. intros o Ho. rewrite forallb_forall in H. specialize (H o Ho).
-    destruct o as [[z|s]|]; cbn [idx_small idx_ok] in *; try discriminate; try reflexivity.
-    unfold in_int64, int64_min, int64_max. apply Z.leb_le in H. unfold two53 in H. apply andb_true_iff. split; apply Z.leb_le; lia.
+    destruct o as [[z|s]|]; cbn [idx_small idx_ok] in *; try discriminate; reflexivity.
   - apply orb_true_iff. right. apply forallb_forall. intros o Ho. rewrite forallb_forall in H. specialize (H o Ho).
     destruct o as [[z|s]|]; cbn [idx_small idx_exact] in *; try discriminate; auto.
 Qed.
@@ -1474,3 +1473,62 @@ Qed.
 Lemma from_dataframe_call_spec n c t :
   from_dataframe_call n c t = (if Nat.eqb n 0 then from_table c t else TErr TypeError).
 Proof. destruct n; reflexivity. Qed.
+
+(* ------------------------------------------------------------------ linkers as the constructor builds them (f5ef8bd) *)
+Lemma linker_name_free_spec name (subs : list (cell * fmodel)) :
+  linker_name_free name subs = true <-> ~ In name (map fst subs).
+Proof.
+  unfold linker_name_free. rewrite negb_true_iff. split.
+  - intros H Hin. apply in_map_iff in Hin as [[k m] [E Hkm]]. cbn [fst] in E. subst k.
+    assert (X := proj1 (existsb_false_iff _ _) H (name, m) Hkm). cbn [fst] in X.
+    rewrite (proj2 (cell_eqb_eq name name) eq_refl) in X. discriminate.
+  - intros H. apply existsb_false_iff. intros [k m] Hkm. cbn [fst]. apply cell_eqb_neq. intros ->.
+    apply H. apply in_map_iff. exists (k, m). split; [reflexivity|assumption].
+Qed.
+
+Lemma linker_construct_spec name core subs :
+  (In name (map fst subs) -> linker_construct name core subs = TErr DuplicateNameError) /\
+  (~ In name (map fst subs) -> linker_construct name core subs = TOk (mkLinker name core subs)).
+Proof.
+  unfold linker_construct. split; intros H.
+  - destruct (linker_name_free name subs) eqn:E; [|reflexivity]. apply linker_name_free_spec in E. contradiction.
+  - rewrite (proj2 (linker_name_free_spec name subs) H). reflexivity.
+Qed.
+
+(* every linker the constructor returns exports the linker's own table and one table per submodel: the name guard of
+   linker_tables is discharged by the constructor *)
+Lemma linker_tables_constructed st it ii name core subs l (ix : fmodel -> pindex) :
+  linker_construct name core subs = TOk l ->
+  NoDup (map fst subs) ->
+  (forall m, m = core \/ In m (map snd subs) ->
+             wf_model m (length (splabels (fspan m))) /\ pd_index (fspan m) = Some (ix m)) ->
+  linker_to_tables st it ii l
+  = TOk ((name, mkTable (ix core) (export_cols st it ii core))
+         :: map (fun km => (fst km, mkTable (ix (snd km)) (export_cols st it ii (snd km)))) subs)
+  /\ S (length subs) = length ((name, mkTable (ix core) (export_cols st it ii core))
+         :: map (fun km => (fst km, mkTable (ix (snd km)) (export_cols st it ii (snd km)))) subs).
+Proof.
+  unfold linker_construct. destruct (linker_name_free name subs) eqn:E; [|discriminate].
+  intros H Hnd Hall. inversion H; subst l; clear H. apply linker_name_free_spec in E. split.
+  - apply (linker_tables st it ii (mkLinker name core subs) ix); assumption.
+  - cbn [length]. rewrite map_length. reflexivity.
+Qed.
+
+(* symbols whose lags and leads are all integers (of any size): no None in either column, so nothing is rounded *)
+Definition idx_int (o : option pidx) : bool := match o with Some (IInt _) => true | _ => false end.
+Lemma sym_all_int_wf ss : forallb (fun s => idx_int (slags s) && idx_int (sleads s)) ss = true -> sym_wf ss = true.
+Proof.
+  intros H. rewrite forallb_forall in H. unfold sym_wf, idx_col_ok.
+  assert (G : forall (f : symbol -> option pidx), (forall s, In s ss -> idx_int (f s) = true) ->
+              forallb idx_ok (map f ss) && (negb (existsb is_None (map f ss)) || forallb idx_exact (map f ss)) = true).
+  { intros f Hf. apply andb_true_iff. split.
+    - apply forallb_forall. intros o Ho. apply in_map_iff in Ho as [s [<- Hs]]. specialize (Hf s Hs).
+      destruct (f s) as [[z|t]|]; try discriminate; reflexivity.
+    - apply orb_true_iff. left. apply negb_true_iff. apply existsb_false_iff. intros o Ho. apply in_map_iff in Ho as [s [<- Hs]].
+      specialize (Hf s Hs). destruct (f s) as [[z|t]|]; try discriminate; reflexivity. }
+  apply andb_true_iff. split; apply G; intros s Hs; specialize (H s Hs); apply andb_true_iff in H; tauto.
+Qed.
+
+Lemma symbols_roundtrip_all_int ss :
+  forallb (fun s => idx_int (slags s) && idx_int (sleads s)) ss = true -> symbols_roundtrip ss = TOk ss.
+Proof. intros H. apply symbols_roundtrip_ok. apply sym_all_int_wf. assumption. Qed.
